@@ -41,6 +41,10 @@ CONSTANTS Links,          \* e.g. {1} or {1, 2}
           QLen,           \* capacity of one direction of a connection (a full direction blocks the writer)
           Sync,           \* see above
           CancelOnReturn, \* TRUE: runProtocol cancels ci.Context when it returns (code after the repair); FALSE: code as found
+          SkipOnBackendCancel, \* FALSE: the deferred requests are abandoned only when the NODE context is done (code after the
+                          \* second repair); TRUE: also when the backend context is done, i.e. after CancelBackends (code as found)
+          EdgeGuard,      \* TRUE: removeConnection leaves the adjacency edge alone when the peer is connected again (code after the
+                          \* third repair); FALSE: it deletes the edge by peer id whatever has happened since its first section
           Coarse,         \* TRUE: a main loop that is between two of its sequential steps runs on before anything else moves
           RealNodes,      \* nodes modelled at the code's grain; the other node (if any) is an adversary owning its connection ends
           BSilence, BCut, ShutNodes, CancelNodes, BReborn, BAdv, BIdle, BDial,   \* environment budgets
@@ -313,10 +317,11 @@ ReqRebuild(n, c) ==
             THEN [wit EXCEPT !.reest = TRUE] ELSE wit
   /\ UNCHANGED <<ctx, listed, adj, table, tm, co, mode, dl, ls, bud>>
 
-\* DEVIATION (code): the deferred requests are abandoned when the BACKEND context is done, which is also the case
-\* after CancelBackends on a node that lives on: its routing table keeps the route via the removed connection
+\* the deferred requests are abandoned when the node context is done (the tick runners are gone then).  As found, the
+\* code looked at the BACKEND context, which is also done after CancelBackends on a node that lives on: its routing
+\* table then kept the route via the removed connection (SkipOnBackendCancel = TRUE, SessionLife_asis_cancel.cfg).
 ReqSkip(n, c) ==
-  /\ S(n, c).ph \in {"end1", "end2"} /\ ctx[n] # "up"
+  /\ S(n, c).ph \in {"end1", "end2"} /\ (ctx[n] = "down" \/ (SkipOnBackendCancel /\ ctx[n] = "bcancel"))
   /\ Go(n, c, "req_skip", S(n, c))
   /\ UNCHANGED <<ctx, listed, adj, table, req, tm, co, mode, dl, ls, bud, wit>>
 
@@ -345,10 +350,11 @@ ConnDel(n, c) ==
   /\ Go(n, c, "conn_del", S(n, c))
   /\ UNCHANGED <<ctx, adj, table, req, tm, co, mode, dl, ls, bud, wit>>
 
-\* removeConnection, second critical section (knownNodeLock): delete both directions of the edge -- by peer id
+\* removeConnection, second critical section (knownNodeLock, and inside it a look at s.connections): delete both
+\* directions of the edge -- by peer id, unless a new session of the peer has been admitted since the first section
 KnownDel(n, c) ==
   /\ S(n, c).ph = "rmk"
-  /\ adj' = [adj EXCEPT ![n] = FALSE]
+  /\ adj' = [adj EXCEPT ![n] = IF EdgeGuard /\ listed[n] # None THEN @ ELSE FALSE]
   /\ Go(n, c, "known_del", S(n, c))
   /\ UNCHANGED <<ctx, listed, table, req, tm, co, mode, dl, ls, bud, wit>>
 
@@ -554,13 +560,13 @@ OnePerPeer == \A n \in Nodes : Cardinality({c \in CO : S(n, c).ph \in ListedPh})
 ListedIffOpen == \A n \in Nodes, c \in CO : (listed[n] = c) <=> (S(n, c).ph \in ListedPh)
 
 \* after the session's clean-up nothing of it is left: connection entry (above), adjacency edge ...
-EdgeOnlyWhileHeld == \A n \in Nodes : adj[n] => \E c \in CO : S(n, c).ph \in EdgePh
-\* ... and an established session has its edge (fails if removeConnection of an older session deletes the newer one's edge)
+EdgeOnlyWhileHeld == \A n \in Nodes : adj[n] => \E c \in CO : S(n, c).ph \in EdgePh \cup ListedPh
+\* ... and an established session has its edge (fails with EdgeGuard = FALSE: an older session deletes the newer one's edge)
 EstHasEdge == \A n \in Nodes, c \in CO : S(n, c).ph \in {"adj", "upd", "est"} => adj[n]
 
-\* ... a table that differs from the adjacency picture has a rebuild coming (node context alive, backends not cancelled)
+\* ... a table that differs from the adjacency picture has a rebuild coming as long as the node lives
 WillRebuild(s) == s.ph \in {"idone", "adj", "upd"} \/ (s.reg /\ s.ph \in {"rmc", "rmk", "rej", "ret", "end1", "end2"})
-RebuildComing == \A n \in Nodes : (ctx[n] = "up" /\ table[n] # adj[n]) => (req[n].reb \/ \E c \in CO : WillRebuild(S(n, c)))
+RebuildComing == \A n \in Nodes : (ctx[n] # "down" /\ table[n] # adj[n]) => (req[n].reb \/ \E c \in CO : WillRebuild(S(n, c)))
 
 \* ... and no goroutine of it: whatever still runs after the main loop is gone has been cancelled or is about to fail
 Orphan(n, c) == /\ S(n, c).ph = "none" /\ S(n, c) # NoSess
@@ -603,7 +609,7 @@ DialerRedials == \A k \in Links : (dl[k].st = "wait" /\ dl[k].cc) ~> (dl[k].st \
 \* after Shutdown / CancelBackends everything of the node's backends ends
 CancelEndsAll == \A n \in Nodes : (ctx[n] # "up") ~> (Quiet(n) \/ ctx[n] = "up")
 \* the routing table follows the adjacency picture
-TableFollows == \A n \in Nodes : (ctx[n] = "up" /\ table[n] # adj[n]) ~> (table[n] = adj[n] \/ ctx[n] # "up")
+TableFollows == \A n \in Nodes : (ctx[n] # "down" /\ table[n] # adj[n]) ~> (table[n] = adj[n] \/ ctx[n] = "down")
 
 (***************************************************************************)
 (* Witnesses (each must be VIOLATED)                                       *)
